@@ -57,6 +57,30 @@ SPECS = {
         )"""),
         ("int32_inv_overflow_like_wrong_dtype", SIMU, "        inv = np.searchsorted(canon, rows.astype(np.int64) * ncol + cols).astype(", "        inv = np.searchsorted(canon, rows.astype(np.int64) * ncol + cols, side='right').astype("),
     ],
+    "C04": [
+        ("orphan_diag_missing", SIMU, "            diag[orphanDofs] = 1.0\n            A = A + sparse.diags(diag, format=\"csr\")", "            diag[orphanDofs] = 0.0\n            A = A + sparse.diags(diag, format=\"csr\")"),
+        ("callable_z_is_y", SIMU, "                values_eval[:] = values(coord[:, 0], coord[:, 1], coord[:, 2])", "                values_eval[:] = values(coord[:, 0], coord[:, 1], coord[:, 1])"),
+        ("duplicates_last_wins", SIMU, """            x = sparse.csr_matrix(
+                (dofsValues, (dofs, np.zeros_like(dofs))),
+                shape=(size, 1),
+                dtype=np.float64,
+            )
+""", """            x = sparse.lil_matrix((size, 1), dtype=np.float64)
+            x[dofs, 0] = dofsValues
+            x = x.tocsr()
+"""),
+        ("lagrange_value_not_scaled", SOLV, "            b[i] = values[0]", "            b[i] = lagrangeBc.dofsValues[0]"),
+        ("newton_dirichlet_not_incremental", SIMU, "            dofsValues -= u_dofs\n", "            dofsValues -= 0.5 * u_dofs\n"),
+        ("hinged_ties_rotation", R + "Simulations/_beam.py", """        elif beamModel.dim == 2:
+            unknowns = ["x", "y"]
+        elif beamModel.dim == 3:
+            unknowns = ["x", "y", "z"]
+            if unknowns""", """        elif beamModel.dim == 2:
+            unknowns = ["x", "y", "rz"]
+        elif beamModel.dim == 3:
+            unknowns = ["x", "y", "z"]
+            if unknowns"""),
+    ],
 }
 
 
